@@ -84,6 +84,22 @@ theorem C14_model_refines_spec (hist : List Nat) (b k p : Nat) :
   · rcases C14_restore_after_process_crash_partial hist b k with h | h <;> simp [specCrash, h]
   · rcases C14_restore_after_power_loss_partial hist b k p with h | h <;> simp [specCrash, h]
 
+/-- **A refused import touches nothing on disk**: a handler run whose import fails performs no
+file-system step — the directory (current and durable view) is exactly what it was, and the
+request is not acknowledged. -/
+theorem C14_refused_import_leaves_committed_snapshot (fs : FS) (b : Nat) :
+    handleReq fs (b, false) = (fs, false) := rfl
+
+/-- **HTTP histories**: after any sequence of import requests, accepted and refused in any
+mix, a restart restores the snapshot of the last *acknowledged* request (nothing if there was
+none) — in particular a 200 implies persisted, and a refusal leaves what a restart restores
+unchanged.  `_partial` for the same reason as above: the last one, not all of them. -/
+theorem C14_http_history_restores_last_acknowledged_partial (reqs : List (Nat × Bool)) (p : Nat) :
+    restoreProcess (handleAll reqs) = lastOf (acked reqs)
+    ∧ restorePower p (handleAll reqs) = lastOf (acked reqs) := by
+  rw [handleAll_eq]
+  exact C14_clean_restart_partial (acked reqs) p
+
 /-! ### The pinned tree violated the property (witnesses replayed by `corpus/C14`) -/
 
 /-- pinned tree: the committed marker is removed *first*; a crash right after that step of the
